@@ -34,6 +34,29 @@ for _p, _t in {
 }.items():
     CHECKS[_p] = dict(category="model_checking", text=_t, design_ref="DESIGN.md 4/" + _p, note=_GEN_NOTE, technique=_GEN_TECH)
 
+CHECKS["C02"] = dict(
+    category="model_checking",
+    text="TLC enumerates every token text up to a length over the alphabet {atom, (, ), =, #, ring open/close, descriptor} (spec/TokenScan.tla; "
+         "the state of the writer is the MEANING of the text: atoms, bonds, attachment atom and order of each descriptor) and checks its model "
+         "theorems; the specification's meaning is first cross-checked against RDKit's SMILES semantics with the descriptor written as a dummy atom, "
+         "then every text is concretised (element pools by valence, ids, every float syntax, lists) and the real SmilesToken is compared field by "
+         "field (symbol, id, weight, list, atom, order, fragment, atom list). Element level (terminals, unit lists, distribution family and parameters, "
+         "element kinds and order) is compared for the instance library and seeded archetypes in four whitespace / number-format variants.",
+    design_ref="DESIGN.md 4/C02",
+    note="Trusted: TLC, RDKit (reference SMILES semantics), the independent printer. Bound: all token texts up to 9 (quick) / 11 (thorough) symbols.",
+    technique="TLA+ writer/scanner spec enumerated exhaustively by TLC; every enumerated behaviour replayed into the parser and compared with the spec state",
+)
+CHECKS["C12"] = dict(
+    category="model_checking",
+    text="TLC enumerates ALL mixture configurations of a bounded space (1-3 components quick, 1-4 thorough; absolute / percent / unspecified; value sets that "
+         "produce consistent, over-100, under-100 and contradictory totals; with and without caller-supplied system mass), solves each with the reference "
+         "solver of spec/Mixture.tla in exact rationals, checks the model theorems (sum to 100, abs = pct*S/100, user values kept), and every configuration is "
+         "replayed into the real System: outcome class and every mass / percentage compared, then str -> re-parse -> masses again.",
+    design_ref="DESIGN.md 4/C12",
+    note="Trusted: TLC, the reference solver as transcription of the statement. Exhaustive within the value sets. Component masses are read from System._molecules (no public accessor).",
+    technique="TLA+ reference solver + TLC exhaustive enumeration of configurations; each configuration replayed into the implementation",
+)
+
 PENDING_REASON = "check not built yet in this round (design in DESIGN.md); no claim is made"
 
 
